@@ -1,6 +1,6 @@
 (* C04 — one-shot runs terminate: no lost wake-up, no deadlock, whatever the graph.
-   Property theorems only; proofs are in Proofs/SysWitness.v, Proofs/SysRoot.v (and Proofs/SysLive*.v). *)
-From Zinoma.Proofs Require Import SysWitness SysLive4 SysTerm.
+   Property theorems only; proofs are in Proofs/SysWitness.v, Proofs/SysRoot.v, Proofs/SysLive*.v, Proofs/Potential.v, Proofs/SysBound.v. *)
+From Zinoma.Proofs Require Import SysWitness SysLive4 SysTerm SysBound.
 
 (* The pinned handlers (before the FX1 repair, fx1 = false) lose a wake-up: `svc` service, `usesvc` build depending on it,
    `zinoma usesvc svc`. The schedule ends in a state where nothing can happen any more, no script failed, and the root is
@@ -49,3 +49,42 @@ Theorem C04_quiescent_done :
     reachable true false g roots s -> quiescent true false s = true -> (forall t, ObFail t ∉ hist s) ->
     ph s = PWaitTerm \/ exists st, ph s = PExited st.
 Proof. exact quiescent_done. Qed.
+
+(* NO LIVELOCK, with an explicit bound. Every one-shot execution — any graph (cyclic or not), any requested list, any
+   interleaving, any number of signals, script failures and spawn errors, pinned or repaired handlers — makes at most
+   8·(dependency edges) + 3·(targets) + 8·(requested ids) + 3 steps besides signal deliveries (`internal` counts the labels
+   other than LSignal; `edges` sums the lengths of the dependency lists). Proof: the potential Phi (Proofs/SysBound.v: what
+   every actor may still send, the weights of the messages in flight, the termination messages, the phase) strictly
+   decreases at every such step. *)
+Theorem C04_oneshot_steps_bounded :
+  forall (fx : bool) (g : graph) (roots : list tid) (ls : list label) (s : sys),
+    run_labels fx false (init_sys g roots) ls = Some s ->
+    internal ls <= 8 * edges g + 3 * size g + 8 * length roots + 3.
+Proof. exact oneshot_steps_bounded. Qed.
+
+(* the same from any reachable state: no continuation makes more than Phi(s) steps besides signal deliveries *)
+Theorem C04_continuations_bounded :
+  forall (fx : bool) (g : graph) (roots : list tid) (ls : list label) (s0 s : sys),
+    reachable fx false g roots s0 -> run_labels fx false s0 ls = Some s -> internal ls + Phi s <= Phi s0.
+Proof. intros fx g roots ls s0 s. exact (run_bounded fx g roots ls s0 s). Qed.
+
+(* TERMINATION. Repaired handlers, every closed acyclic graph, every requested set within it: from every reachable state
+   of a one-shot run in which no script has failed, a continuation in which no script fails, of at most Phi(s) steps, ends
+   with zinoma exited or kept alive by a requested service (C11_keepalive_iff says which). Together with the bound above
+   (every continuation stops) and C04_quiescent_done (where it stops, it is done) this is the property for the model:
+   if every script terminates, the one-shot run terminates. *)
+Theorem C04_oneshot_terminates :
+  forall (g : graph) (roots : list tid) (rank : tid -> nat) (s : sys),
+    (forall t k deps d, g !! t = Some (k, deps) -> d ∈ deps -> is_Some (g !! d)) ->
+    (forall r, r ∈ roots -> is_Some (g !! r)) ->
+    (forall t k deps d, g !! t = Some (k, deps) -> d ∈ deps -> rank d < rank t) ->
+    reachable true false g roots s -> (forall t, ObFail t ∉ hist s) ->
+    exists ls s', run_labels true false s ls = Some s' /\ length ls <= Phi s /\
+                  (ph s' = PWaitTerm \/ exists st, ph s' = PExited st).
+Proof. exact oneshot_terminates. Qed.
+
+(* the bound on a concrete project: `2: [1]` with service 1, requested 2 and 1 (the D1 project): at most 33 steps; the D1
+   schedule makes 10 of them *)
+Example C04_bound_d1 :
+  8 * edges g_d1 + 3 * size g_d1 + 8 * length [2%N; 1%N] + 3 = 33 /\ Phi (init_sys g_d1 [2%N; 1%N]) <= 33 /\ internal sched_d1 = 10.
+Proof. vm_compute. repeat split; lia. Qed.
